@@ -151,9 +151,9 @@ def c_solveHydroShock(chk):
             xiS, TS, vS = vw, Tp, vpc
             chk.vc(f"solveHydroShock.front-at-wall-case.{i}", p.pc, front_at_wall, func=fn)
         # returned Tn: zero of the energy-flux continuity across the front, plasma at rest ahead
-        froot = r["froot"]
-        tn = r["root"]
-        chk.vc(f"solveHydroShock.returns-root.{i}", p.pc, Eq(p.value, tn), func=fn)
+        froot = r["generic_f"]
+        tn = r["generic_x"]
+        chk.vc(f"solveHydroShock.returns-root.{i}", p.pc, Eq(p.value, r["root"]), func=fn)
         if xiS is None:
             xiS = sp.sqrt(H["csq"](Tp))
             extra = [Ge(H["csq"](Tp), 0)]
@@ -163,7 +163,7 @@ def c_solveHydroShock(chk):
         muS = mu(xiS, vS)
         spec = H["w"](tn) * gammaSq(xiS) * xiS - H["w"](TS) * gammaSq(muS) * muS
         chk.vc(f"solveHydroShock.front-energy-flux.{i}", p.pc + extra, Eq(froot, spec), func=fn + ".<TiiShock>")
-        chk.vc(f"solveHydroShock.converged.{i}", p.pc + extra, And(r["converged"], Eq(spec, 0)), func=fn)
+        chk.vc(f"solveHydroShock.converged.{i}", p.pc + extra, And(r["converged"], Eq(subs(spec, {tn: r["root"]}), 0)), func=fn)
         chk.vc(f"solveHydroShock.tolerances.{i}", p.pc, And(Eq(r["xtol"], real("atol")), Eq(r["rtol"], real("rtol"))), func=fn)
         chk.canary(f"solveHydroShock.front-energy-flux.{i}", p.pc + extra, Eq(froot, spec + 1), func=fn)
     if cases != {"integrate", "plasma-at-rest", "front-at-wall"}:
